@@ -133,7 +133,7 @@ def build(world):
     def tuple_new(I, cls, a, k):
         if not a:
             return ()
-        if isinstance(a[0], (SList, RSeq)):
+        if isinstance(a[0], (SList, RSeq, MapSeq)) or getattr(a[0], "pyvc_sequence_spec", False):
             return a[0]   # immutable view: reuse (read-only uses)
         return tuple(I.iterate(a[0]))
     prim("tuple", tuple_new)
